@@ -4,6 +4,7 @@ import IwModel.Lemmas.TxtConv
 import IwModel.Lemmas.ReVm
 import IwModel.Lemmas.TxtItoa
 import IwModel.Lemmas.ReLimits
+import IwModel.Props.C17Ini
 /-! # C17 — text-consuming functions are memory-safe on any input and depend only on it
 
 Property theorems only; helper lemmas live in `IwModel/Lemmas/Txt*.lean`.
